@@ -22,7 +22,7 @@ def sh(cmd, **kw):
 
 
 def build():
-    r = sh(f"{PY} setup.py build_ext --inplace")
+    r = sh(f"{PY} setup.py build_ext --inplace --force")
     return r.returncode == 0
 
 
